@@ -379,7 +379,8 @@ def shrink(P, rec, harness, driver, tier, result, cls):
         budget -= 1
         rs = evaluate(P, cands, harness, driver, tier, result)
         for r in rs:
-            bad = r["fail"] or r["diff"]
+            # keep the kind of failure: a property failure must stay a property failure
+            bad = r["fail"] if rec.get("fail") else (r["fail"] or r["diff"])
             if bad and classify(P, r) == cls:
                 cur = r
                 progress = True
